@@ -549,6 +549,7 @@ pub fn default_seed() -> u64 {
 /// Run a property's check. Returns the process exit code.
 pub fn run_property(p: &Property, tier: Tier, seed: u64, only_sub: Option<&str>) -> i32 {
     guard::init();
+    guard::set_property(p.id);
     let t0 = Instant::now();
     let known = Arc::new(load_known(p.id));
     let mut total = Ctx::new(tier, known.clone());
